@@ -93,6 +93,19 @@ def opAfter (_args res : List String) : Verdict :=
   | "trap" :: _ => { spec := some "build-panicked", model := some "trap" }
   | _ => { spec := some "bad-line" }
 
+/-- `reuse <A> <B> <ops> => s:<svg by reused builder>:<svg by fresh builder> p:<pixmap …>:<…>` -/
+def opReuse (_args res : List String) : Verdict :=
+  match res with
+  | ["nobuild"] => {}
+  | "trap" :: _ => { spec := some "render-panicked", model := some "trap" }
+  | gs =>
+    let bad := gs.findSome? fun g =>
+      match g.splitOn ":" with
+      | [k, x, y] => if x == y then none else some s!"rendering-depends-on-what-the-renderer-rendered-before:{k}"
+      | _ => some "bad-group"
+    -- in the model a rendering is a function of (builder options, QR code)
+    { spec := bad, model := bad.map fun _ => "model-renderings-are-history-free" }
+
 /-- `threads <T> <seed> <k> => (input,e,m,v,k,digestThreaded,digestSingle)*` -/
 def opThreads (_args res : List String) : Verdict :=
   let rows := res.map (·.splitOn ",")
